@@ -405,6 +405,44 @@ theorem taiko_guard_rejects_n300_zero (impl : Rat → XF) (s : TaikoState) (ghw 
     (h : s.n300 = 0) : taikoDeviation true impl s ghw pl sqrt2 = none := by
   unfold taikoDeviation; simp [h]
 
+/-- osu! `calculate_deviation`: `p_lower_bound == 0.0` rescues the division by `erf_inv(0) = 0`:
+whatever NaN/∞ the formulas produced, the limit value is used -/
+theorem osu_deviation_plb_zero_uses_limit (rv dev limit : XF) :
+    osuDeviationSelect (.fin 0) rv dev limit = limit := by
+  unfold osuDeviationSelect XF.ieeeEq XF.le
+  simp
+
+/-- a finite deviation never exceeds the limit value after the selection -/
+theorem osu_deviation_le_limit (plb rv : XF) (d l : Rat) :
+    ∃ r, osuDeviationSelect plb rv (.fin d) (.fin l) = .fin r ∧ r ≤ l := by
+  unfold osuDeviationSelect
+  split_ifs with h
+  · exact ⟨l, rfl, le_refl _⟩
+  · refine ⟨d, rfl, ?_⟩
+    simp only [Bool.or_eq_true, not_or, Bool.not_eq_true] at h
+    have h3 := h.2
+    unfold XF.lt XF.le at h3
+    simp only [Bool.and_eq_false_iff, decide_eq_false_iff_not, not_le, Bool.not_eq_false', decide_eq_true_eq] at h3
+    rcases h3 with h3 | h3
+    · linarith
+    · exact h3
+
+/-- the selection does NOT catch NaN: with `p_lower_bound ≠ 0` a NaN deviation (e.g. from a zero
+`great_hit_window`: `0/x = 0`, `ok/0 = ∞`, `exp(−∞)/(0·1) = 0/0`) passes all three comparisons.
+The hypothesis the finiteness of `speed_deviation` relies on — `great_hit_window > 0` — holds for
+OD ≤ 11 and clock rate ≤ 2 (window ≥ 7 ms) and is checked on the implementation. -/
+theorem osu_deviation_nan_escapes : osuDeviationSelect (.fin (1 / 2)) .nan .nan (.fin 50) = .nan := by
+  decide +kernel
+
+theorem osu_speed_deviation_none_without_hits (s : OsuState) (g o m : Rat) (h : s.n300 + s.n100 + s.n50 = 0) :
+    osuSpeedDeviationIsSome s g o m = false := by
+  unfold osuSpeedDeviationIsSome; rw [if_pos h]
+
+/-- the divisor `great + ok + meh` of the final variance is strictly positive whenever a value is returned -/
+theorem osu_deviation_divisor_pos (g o m : Rat) (h : osuDeviationIsSome g o m = true) : 0 < g + o + m := by
+  unfold osuDeviationIsSome at h
+  simpa using h
+
 /-! ## 7. zero hits ⇒ zero pp (decision logic of the four `calculate` functions) -/
 
 /-- osu!: the early return makes the result independent of everything else (even NaN attributes) -/
